@@ -11,7 +11,7 @@ from .lin import Lin, ge, eq, implies, infeasible
 from . import q
 
 UNSIGNED = ('unsigned', 'size_t', 'uint', 'bool')
-TYPE_SIZE = {'char': 1, 'signed char': 1, 'unsigned char': 1, 'bool': 1, 'short': 2, 'unsigned short': 2, 'int': 4, 'unsigned int': 4,
+TYPE_SIZE = {'long double': 16, 'char': 1, 'signed char': 1, 'unsigned char': 1, 'bool': 1, 'short': 2, 'unsigned short': 2, 'int': 4, 'unsigned int': 4,
              'long': 8, 'unsigned long': 8, 'long long': 8, 'unsigned long long': 8, 'float': 4, 'double': 8, 'wchar_t': 4}
 TYPE_MAX = {'unsigned char': 255, 'unsigned short': 65535, 'unsigned int': 4294967295, 'bool': 1, 'char': 127, 'signed char': 127, 'short': 32767, 'int': 2147483647}
 TYPE_MIN = {'char': -128, 'signed char': -128, 'short': -32768, 'int': -2147483648}
@@ -327,7 +327,14 @@ class Engine(object):
     def object_size(self, fn, st, obj, node):
         key = obj + '.size()'
         if key in st.env:
-            return st.env[key]
+            sz = st.env[key]
+            bt0 = (self.obj_types.get(obj) or '').replace('const ', '').strip()
+            if getattr(self, 'byte_sinks', False) and bt0.startswith('std::vector<'):
+                el = bt0[len('std::vector<'):].split(',')[0].rstrip('>').strip()
+                if el not in TYPE_SIZE:
+                    return None
+                sz = sz.scale(TYPE_SIZE[el])
+            return sz
         t = self.obj_types.get(obj)
         if t:
             bt = t.replace('const ', '').strip()
@@ -341,7 +348,14 @@ class Engine(object):
                 except ValueError:
                     return None
             if any(x in bt for x in ('std::basic_string', 'std::vector')):
-                return self.size_of(st, obj)
+                sz = self.size_of(st, obj)
+                if getattr(self, 'byte_sinks', False) and bt.startswith('std::vector<'):
+                    # a byte-count sink (void * + n) into a vector<T>: the object is size()*sizeof(T) bytes long
+                    el = bt[len('std::vector<'):].split(',')[0].rstrip('>').strip()
+                    if el not in TYPE_SIZE:
+                        return None
+                    sz = sz.scale(TYPE_SIZE[el])
+                return sz
             if bt in self.struct_sizes:
                 return Lin.const(self.struct_sizes[bt])
             return None
